@@ -77,6 +77,8 @@ pub struct Profile {
     pub w_class: u32,
     pub w_try: u32,
     pub w_throw: u32,
+    /// throw statements may throw instances of user-defined error classes (declared by `program`)
+    pub user_errors: bool,
     pub w_fiber: u32,
     pub w_call_stmt: u32,
     pub w_break: u32,
@@ -114,6 +116,7 @@ impl Profile {
             w_class: 0,
             w_try: 0,
             w_throw: 0,
+            user_errors: true,
             w_fiber: 0,
             w_call_stmt: 3,
             w_break: 2,
@@ -187,6 +190,10 @@ pub struct Gen<'a> {
     /// globals that functions may use before the program defines them (late binding)
     late_pending: Vec<String>,
     late_defined: Vec<String>,
+    /// names currently hidden (being declared): late-bound uses must not mention them either
+    hidden_names: Vec<String>,
+    /// user-defined error classes (name, superclass) declared at the top of the program on demand
+    pub user_errors: Vec<(String, String)>,
     /// a pending self-recursive call to place: (function, depth parameter, arity)
     rec_target: Option<(String, String, usize)>,
     /// false while generating the right side of a compound assignment (calls are fine there, but
@@ -194,7 +201,7 @@ pub struct Gen<'a> {
     tracer_ok: bool,
 }
 
-const STRS: &[&str] = &["", "a", "ab", "abc", "é", "x€y", "😀", "hello world", "A1", "  ", "0", "12", "a,b,c", "two\nlines"];
+const STRS: &[&str] = &["", "a", "ab", "abc", "é", "x€y", "😀", "hello world", "A1", "  ", "0", "12", "a,b,c", "two\nlines", "aกb", "\u{7ff}\u{800}\u{ffff}"];
 const NUMS: &[f64] = &[
     0.0, 1.0, 2.0, 3.0, 4.0, 7.0, 10.0, 0.5, 1.5, 2.25, 100.0, 255.0, 256.0, 65536.0, 4294967296.0,
     9007199254740993.0, 1e19, 0.1, 63.0, 64.0,
@@ -225,6 +232,8 @@ impl<'a> Gen<'a> {
             trace_id: 0,
             late_pending: Vec::new(),
             late_defined: Vec::new(),
+            hidden_names: Vec::new(),
+            user_errors: Vec::new(),
             rec_target: None,
             tracer_ok: true,
         }
@@ -410,7 +419,9 @@ impl<'a> Gen<'a> {
                 self.late_pending.push(n.clone());
                 n
             };
-            return Some(Expr::var(&name));
+            if !self.hidden_names.contains(&name) {
+                return Some(Expr::var(&name));
+            }
         }
         let vs = self.vars_of(want);
         if vs.is_empty() {
@@ -1147,6 +1158,7 @@ impl<'a> Gen<'a> {
 
     /// temporarily removes every visible declaration of `name` (so generated code cannot mention it)
     fn hide(&mut self, name: &str) -> Vec<(usize, usize, VarInfo)> {
+        self.hidden_names.push(name.to_string());
         let mut removed = Vec::new();
         for (si, sc) in self.scopes.iter_mut().enumerate() {
             let mut i = 0;
@@ -1162,6 +1174,7 @@ impl<'a> Gen<'a> {
     }
 
     fn unhide(&mut self, removed: Vec<(usize, usize, VarInfo)>) {
+        self.hidden_names.pop();
         for (si, i, v) in removed.into_iter().rev() {
             let sc = &mut self.scopes[si];
             let i = i.min(sc.len());
@@ -1465,7 +1478,80 @@ impl<'a> Gen<'a> {
                 kind: FnKind::Function,
             })))
         };
-        match self.rd.below(7) {
+        match self.rd.below(9) {
+            7 | 8 => {
+                // captured variables in neighbouring slots of nested scopes: the scopes end
+                // innermost first, each enclosing variable is then written by its declaring scope
+                // and through a closure, and read back both ways
+                self.label("closure_adjacent_scopes");
+                let f = self.fresh("adj");
+                let n = 2 + self.rd.below(3);
+                let as_loop = self.rd.chance(1, 3);
+                let vars: Vec<String> = (0..n).map(|i| format!("w{}", i)).collect();
+                let l1 = self.next_lambda_name();
+                let mut inner: Vec<Stmt> = Vec::new();
+                // innermost: the closures
+                let reader = Expr::Lambda(Rc::new(FnDef {
+                    name: RefCell::new(l1),
+                    params: vec![],
+                    body: Body::Expr(Box::new(Expr::VecLit(vars.iter().map(|v| Expr::var(v)).collect()))),
+                    kind: FnKind::Lambda,
+                }));
+                inner.push(Stmt::expr(Expr::invoke(Expr::var("fs"), "push", vec![reader])));
+                for v in &vars {
+                    let ln = self.next_lambda_name();
+                    inner.push(Stmt::expr(Expr::invoke(Expr::var("ss"), "push", vec![Expr::Lambda(Rc::new(FnDef {
+                        name: RefCell::new(ln),
+                        params: vec!["q".into()],
+                        body: Body::Expr(Box::new(Expr::assign_var(v, Expr::bin(BinOp::Add, Expr::var(v), Expr::var("q"))))),
+                        kind: FnKind::Lambda,
+                    }))])));
+                }
+                let after = |i: usize| -> Vec<Stmt> {
+                    // runs in the scope that declares vars[i], after the scope of vars[i + 1] ended
+                    let v = &vars[i];
+                    vec![
+                        Stmt::expr(Expr::assign_var(v, Expr::bin(BinOp::Add, Expr::var(v), Expr::Num(100.0)))),
+                        Stmt::print(Expr::call(Expr::index(Expr::var("fs"), Expr::Num(0.0)), vec![])),
+                        Stmt::expr(Expr::call(Expr::index(Expr::var("ss"), Expr::Num(i as f64)), vec![Expr::Num(1.0)])),
+                        Stmt::print(Expr::var(v)),
+                        Stmt::print(Expr::call(Expr::index(Expr::var("fs"), Expr::Num(0.0)), vec![])),
+                    ]
+                };
+                // build from the inside out
+                let mut body_i = {
+                    let mut b = vec![Stmt::var(&vars[n - 1], Some(Expr::Num((n - 1) as f64)))];
+                    b.extend(inner);
+                    b
+                };
+                for i in (0..n - 1).rev() {
+                    let nested = if as_loop && i == n - 2 {
+                        // the innermost scope is a loop body run once
+                        vec![
+                            Stmt::var("once", Some(Expr::True)),
+                            Stmt::new(StmtKind::While(Expr::var("once"), {
+                                let mut b = vec![Stmt::expr(Expr::assign_var("once", Expr::False))];
+                                b.extend(body_i);
+                                b
+                            })),
+                        ]
+                    } else {
+                        vec![Stmt::new(StmtKind::Block(body_i))]
+                    };
+                    let init = if i == 0 { Expr::var("p") } else { Expr::Num(i as f64) };
+                    let mut b = vec![Stmt::var(&vars[i], Some(init))];
+                    b.extend(nested);
+                    b.extend(after(i));
+                    body_i = b;
+                }
+                let mut body = vec![Stmt::var("fs", Some(Expr::VecLit(vec![]))), Stmt::var("ss", Some(Expr::VecLit(vec![])))];
+                body.extend(body_i);
+                body.push(ret(Expr::index(Expr::var("fs"), Expr::Num(0.0))));
+                out.push(fdef(&f, vec!["p".into()], body));
+                self.declare(&f, Kind::Fn(1), false);
+                let x = self.expr(Kind::Num, d);
+                out.push(Stmt::print(Expr::call(Expr::callv(&f, vec![x]), vec![])));
+            }
             5 | 6 => {
                 // a closure over a variable declared inside a try block (or in a callee of it) that
                 // escapes through an outer variable; the block is left by an exception, then the
@@ -1923,6 +2009,27 @@ pub fn program(data: &[u8], prof: Profile) -> (Program, Vec<&'static str>) {
                     Stmt::new(StmtKind::Return(Some(Expr::var("v")))),
                 ]),
                 kind: FnKind::Function,
+            }))),
+        );
+    }
+    // user-defined error classes used by throw statements: declared first, in creation order
+    for (k, (name, sup)) in g.user_errors.clone().into_iter().enumerate() {
+        main.insert(
+            k,
+            Stmt::new(StmtKind::Class(Rc::new(ClassDef {
+                name,
+                superclass: Some(sup),
+                default_ctor: None,
+                methods: vec![Rc::new(FnDef {
+                    name: RefCell::new("new".to_string()),
+                    params: vec!["context".to_string()],
+                    body: Body::Block(vec![Stmt::expr(Expr::assign(
+                        Target::Prop(Expr::SelfE, "context".to_string()),
+                        Expr::var("context"),
+                    ))]),
+                    kind: FnKind::Init,
+                })],
+                attr_line: Cell::new(0),
             }))),
         );
     }
